@@ -40,7 +40,13 @@ VALUES = [0, 1, 2, 1.0, 2.0, True, False, None, "a", "1", (1,), (1.0,), (1, 2), 
           # positional values that look like a keyword item: f(("a", 1)) is not f(a=1)
           ("a", 1), ("b", 1), ("a", 2),
           # transparent stand-ins: equal to and hashing like 1 / 1.0, and reporting that value's class via __class__
-          "REF1", "REF1.0"]
+          "REF1", "REF1.0",
+          # a call during which the wrapped function empties its own cache (a reload hook): the result of that very
+          # call is stored afterwards, as functools does
+          "clear!",
+          # a float whose one-argument call key and a plain int argument have the SAME hash (f(1.5) and
+          # f(hash((1.5,))): different calls that meet in one hash bucket)
+          "HALF", "COLLIDE"]
 
 
 class _Ref:
@@ -63,6 +69,10 @@ class _Ref:
 
 
 _REFS = {"REF1": _Ref(1), "REF1.0": _Ref(1.0)}
+# the first of 0.5, 1.5, 2.5, ... whose 1-tuple hash is a value an int can hash to (|h| < 2**61 - 1): 1.5 on CPython 3.12
+_HALF = next((k + 0.5 for k in range(200) if abs(hash((k + 0.5,))) < 2 ** 61 - 1), 1.5)
+_REFS["HALF"] = _HALF
+_REFS["COLLIDE"] = hash((_HALF,))
 
 
 def _val(v):
@@ -74,7 +84,7 @@ def _val(v):
 
 
 # indexes into VALUES; the confusable values 1 / 1.0 / True / (1,) / (1.0,) are over-weighted
-ARG = st.one_of(st.sampled_from(range(len(VALUES))), st.sampled_from([1, 3, 5, 10, 11, 1, 16, 17, 19, 20]))
+ARG = st.one_of(st.sampled_from(range(len(VALUES))), st.sampled_from([1, 3, 5, 10, 11, 1, 16, 17, 19, 20, 21, 22, 23, 22, 23]))
 CALL = st.tuples(st.lists(ARG, max_size=2), st.lists(st.tuples(st.sampled_from(["a", "b", "self", "key"]), ARG), max_size=2,
                                                      unique_by=lambda t: t[0]))
 
@@ -206,9 +216,16 @@ def build_targets(case, extra=None):
     """returns (async callables per instance, sync callables per instance, logs, normalised maxsize)"""
     kind, maxsize, typed = case["kind"], case["maxsize"], case["typed"]
     alog, slog = [], []
+    targets = {}  # side -> the wrappers, for a body that works on its own cache
+
+    def _ret(afns_, sfns_, *rest):
+        targets["a"], targets["s"] = afns_, sfns_
+        return (afns_, sfns_) + rest
 
     def body(log, args, kwargs):
         log.append((args, tuple(kwargs.items())))
+        if any(isinstance(x, str) and x == "clear!" for x in list(args) + list(kwargs.values())):
+            (targets["a"] if log is alog else targets["s"])[0].cache_clear()
         if any(x == "boom" and isinstance(x, str) for x in list(args) + list(kwargs.values())):
             raise ValueError("boom")
         logged_args = args[1:] if (args and isinstance(args[0], str) and args[0].startswith("inst")) else args
@@ -255,7 +272,7 @@ def build_targets(case, extra=None):
         def sfn(*args, **kwargs):
             return body(slog, args, kwargs)
 
-        return [afn, afn], [sfn, sfn], alog, slog, norm, 0
+        return _ret([afn, afn], [sfn, sfn], alog, slog, norm, 0)
     if kind == "method":
         class Falsy:
             """the second instance is falsy (empty container-like): binding must not depend on truthiness"""
@@ -296,7 +313,7 @@ def build_targets(case, extra=None):
         holder = [ai[0].m, ai[1].m]
         holder_s = [si[0].m, si[1].m]
         holder.append(recopy)
-        return holder, holder_s, alog, slog, norm, 1
+        return _ret(holder, holder_s, alog, slog, norm, 1)
     if kind == "classmethod":
         class A:
             @classmethod
@@ -310,7 +327,7 @@ def build_targets(case, extra=None):
             def m(cls, *args, **kwargs):
                 return body(slog, args, kwargs)
 
-        return [A.m, A().m], [S.m, S().m], alog, slog, norm, 1
+        return _ret([A.m, A().m], [S.m, S().m], alog, slog, norm, 1)
     class A:
         @staticmethod
         @adeco
@@ -323,7 +340,7 @@ def build_targets(case, extra=None):
         def m(*args, **kwargs):
             return body(slog, args, kwargs)
 
-    return [A.m, A().m], [S.m, S().m], alog, slog, norm, 0
+    return _ret([A.m, A().m], [S.m, S().m], alog, slog, norm, 0)
 
 
 def check(case):
@@ -350,6 +367,8 @@ def check(case):
             return ("return", model.cache[key])
         logged = ((f"inst{inst}",) + args) if case["kind"] == "method" else args
         mlog.append((logged, tuple(kwargs.items())))
+        if any(isinstance(x, str) and x == "clear!" for x in list(args) + list(kwargs.values())):
+            model.clear()
         if any(x == "boom" and isinstance(x, str) for x in list(args) + list(kwargs.values())):
             return ("raise", "ValueError")
         value = result_for(args, kwargs, len(mlog))
